@@ -30,7 +30,7 @@ HEX = "0123456789abcdefABCDEF"
 # adversarial alphabet: quotes, backslash, line breaks, NUL, digits (after octal escapes), the escape letters,
 # hex letters, `?` and backtick (CEL escapes the implementation does not know), BMP and non-BMP characters,
 # the characters around the UTF-8 length boundaries, Unicode line separators
-ALPHA_ASCII = list("'\"\\\n\r\x00\t 0123456789abfnrtvxuUeEA?`-") + ["\x7f", "z"]
+ALPHA_ASCII = list("'\"\\\n\r\x00\t 0123456789abfnrtvxuUeEA?`-") + ["\x7f", "z"] + list("${}%")   # $ { } %: template/format metacharacters of the transpiler
 ALPHA_UNI = [0x80, 0x85, 0xE9, 0xFF, 0x100, 0x7FF, 0x800, 0x2028, 0xD7FF, 0xE000, 0xFFFD, 0xFFFF, 0x10000, 0x1F431, 0x10FFFF]
 SURROGATES = [0xD800, 0xDBFF, 0xDC00, 0xDFFF]
 
@@ -253,6 +253,35 @@ def spelled_int(text: str) -> Optional[int]:
     return -n if m.group(1) else n
 
 
+# a literal inside a larger expression (runner cases only): the value must be the same in any context
+CTXS = ("paren", "list", "dup", "mix")
+MIX_VAL = "$$q{}%s{{$a%%"          # a neighbour literal full of template/format metacharacters
+MIX_LIT = "'" + MIX_VAL + "'"
+
+
+def ctx_src(text: str, ctx: Optional[str]) -> str:
+    if ctx == "paren":
+        return "(" + text + ")"
+    if ctx == "list":
+        return "[" + text + "]"
+    if ctx == "dup":
+        return "[" + text + ", " + text + "]"
+    if ctx == "mix":
+        return "[0x10, " + text + ", " + MIX_LIT + "]"
+    return text
+
+
+def ctx_out(out: str, ctx: Optional[str]) -> str:
+    """the canonical outcome of the context expression, given the outcome `out` of the bare literal"""
+    if not ctx or ctx == "paren" or not celrun.is_value(out):
+        return out
+    if ctx == "list":
+        return "list:[" + out + "]"
+    if ctx == "dup":
+        return "list:[" + out + "," + out + "]"
+    return 'list:[int:16,' + out + ',string:' + json.dumps(MIX_VAL) + ']'
+
+
 # ------------------------------------------------------------------------------------------------
 
 class C07(Prop):
@@ -292,7 +321,9 @@ class C07(Prop):
     # multi-character motifs: sequences whose parts interact (CR LF pairs, runs of quotes, text that looks
     # like an escape and must come back verbatim, a backslash at the end)
     MOTIFS = ["\r\n", "\n\r", "\n\n", "''", '""', "'\"'", "\\\\", "\\'", '\\"', "\\n", "\\x41", "\\101", "\\u0041",
-              "a\\", "\\", "'''", '"""', "\r", "\t\n"]
+              "a\\", "\\", "'''", '"""', "\r", "\t\n",
+              # what string.Template / str.format / %-formatting would rewrite if literal text were ever re-scanned
+              "$$", "${a}", "$a", "{}", "{0}", "{{", "}}", "%s", "%%", "%(a)s"]
 
     def _rand_value(self, rng: random.Random, kind: str) -> List[int]:
         n = rng.choice([0, 1, 1, 2, 3, 4, 6, 9])
@@ -355,6 +386,26 @@ class C07(Prop):
             c["value"] = value
         return c
 
+    def _with_ctx(self, rng: random.Random, c: Dict[str, Any], p: float) -> Dict[str, Any]:
+        """with probability p put a runner case of a VALID literal (one the oracle has an opinion on) inside a larger
+        expression: parenthesised, a list element, the same literal twice, next to other literals"""
+        if c["via"] == "fn":
+            return c
+        if rng.random() >= p and not (c["kind"] in ("str", "bytes") and any(x in (36, 37, 123, 125) for x in c["body"])):
+            return c
+        ctx = rng.choice(CTXS)
+        kind = c["kind"]
+        if kind in ("str", "bytes"):
+            ok = ref_value(c) is not None
+        else:
+            text = text_of(c["text"])
+            if kind == "float":
+                ok = bool(FLOAT_RE.match(text))
+            else:
+                t = text if kind == "int" else text[:-1]
+                ok = spelled_int(t) is not None and not (kind == "uint" and t.startswith("-")) and len(t) < 4000
+        return dict(c, ctx=ctx) if ok else c
+
     def search_cases(self, rng: random.Random) -> Iterable[Dict[str, Any]]:
         """lazy stream for the failing-input search: the numeric cases of a quick run, then literal cases
         through all three paths until the search's time budget ends"""
@@ -365,25 +416,39 @@ class C07(Prop):
             c = self._lit_case(rng, rng.choice(["str", "bytes"]))
             for via in ("fn", "I", "C"):
                 yield dict(c, via=via)
+            yield self._with_ctx(rng, dict(c, via=rng.choice(["I", "C"])), 1.0)
 
     def generate(self, rng: random.Random, tier: str) -> Iterable[Dict[str, Any]]:
         quick = tier == "quick"
         cases: List[Dict[str, Any]] = []
-        n_str = 1500 if quick else 60000
+        n_str = 2000 if quick else 60000
         for kind in ("str", "bytes"):
             for i in range(n_str):
                 c = self._lit_case(rng, kind)
                 if quick:
-                    cases.append(dict(c, via=rng.choice(["fn", "I", "C"])))
+                    cases.append(self._with_ctx(rng, dict(c, via=rng.choice(["fn", "I", "C"])), 0.35))
                 else:
                     for via in ("fn", "I", "C"):
                         cases.append(dict(c, via=via))
+                    cases.append(self._with_ctx(rng, dict(c, via=rng.choice(["I", "C"])), 1.0))
         # integers
         ints = set()
         for b in (0, 1, 7, 8, 9, 10, 15, 16, 255, 2**31, 2**32, 2**53, I_MAX, 2**63, U_MAX, 2**64, 2**64 + 1, 10**19, 10**20):
             for d in (-2, -1, 0, 1, 2):
                 if b + d >= 0:
                     ints.add(b + d)
+        boundary = sorted(ints)
+        # every boundary value in BOTH spellings, bare and with leading zeros, with and without a sign: a change that
+        # depends on the text's shape (prefix stripping, int(text, 0), sign handling) must not hinge on a random draw
+        for n in boundary:
+            for digits in (str(n), "0x%x" % n, "0" + str(n), "0x0%X" % n):
+                for sgn in ("", "-"):
+                    text = sgn + digits
+                    vias = ["fn", ("I", "C")[(n + len(text)) % 2]] if quick else ["fn", "I", "C"]
+                    for via in vias:
+                        cases.append({"kind": "int", "text": cps(text), "via": via})
+                        if not sgn or n == 0:
+                            cases.append({"kind": "uint", "text": cps(text + "uU"[n % 2]), "via": via})
         for _ in range(60 if quick else 3000):
             ints.add(rng.getrandbits(rng.choice([8, 16, 31, 32, 53, 63, 64, 65])))
         for n in sorted(ints):
@@ -398,9 +463,9 @@ class C07(Prop):
                 neg = rng.random() < 0.45
                 text = ("-" if neg else "") + digits
                 for via in (["fn", rng.choice(["I", "C"])] if quick else ["fn", "I", "C"]):
-                    cases.append({"kind": "int", "text": cps(text), "via": via})
+                    cases.append(self._with_ctx(rng, {"kind": "int", "text": cps(text), "via": via}, 0.25))
                     if not neg or rng.random() < 0.15:
-                        cases.append({"kind": "uint", "text": cps(text + rng.choice("uU")), "via": via})
+                        cases.append(self._with_ctx(rng, {"kind": "uint", "text": cps(text + rng.choice("uU")), "via": via}, 0.25))
         for text in ("0" * 4299 + "7", "0" * 4300 + "7", "9" * 4300, "-" + "0" * 4299 + "1", "0x" + "0" * 5000 + "ff", "00", "-0", "-00", "000000000000000000000000000000"):
             for via in ("fn", "I", "C"):
                 cases.append({"kind": "int", "text": cps(text), "via": via})
@@ -431,9 +496,21 @@ class C07(Prop):
                     fl.append(sgn + f)
         fl += [".5", "-.5", "5.", "1e5", "1E+5", "1e-5", "1e999", "-1e999", "1e-999", "00e1", "007.5", "0.0", "-0.0", ".0e0",
                "4.9e-324", "2.4e-324", "1.7976931348623159e308", "0." + "0" * 400 + "1", "1" + "0" * 400 + ".0", "1." + "1" * 800]
+        # every mantissa shape x every exponent shape of the FLOAT_LIT grammar (sign of the exponent, letter case,
+        # leading zeros, no exponent), positive and negative
+        for mant in ("5.", ".5", "5.5", "05.50", "5", "0.", ".0", "12345678901234567890.", "9"):
+            for ex in ("", "e3", "E3", "e+3", "E+3", "e-3", "E-3", "e03", "e+03", "E-03", "e0", "e+0", "E-0", "e+300", "e-300", "E+22"):
+                if "." not in mant and not ex:
+                    continue                      # that is an INT_LIT
+                for sgn in ("", "-"):
+                    fl.append(sgn + mant + ex)
+        seen_f = set()
         for f in fl:
+            if f in seen_f:
+                continue
+            seen_f.add(f)
             for via in ("I", "C"):
-                cases.append({"kind": "float", "text": cps(f), "via": via})
+                cases.append(self._with_ctx(rng, {"kind": "float", "text": cps(f), "via": via}, 0.2))
         return cases
 
     # ---- implementation -------------------------------------------------------------------------
@@ -486,7 +563,7 @@ class C07(Prop):
                         return "raise " + base.__name__
                 return "raise " + cls.__name__
             return "HARNESS-EXC unsupported fn kind"
-        return celrun.run(text, via)
+        return celrun.run(ctx_src(text, c.get("ctx")), via)
 
     # ---- model ----------------------------------------------------------------------------------
     @staticmethod
@@ -518,6 +595,9 @@ class C07(Prop):
         return f"{fn} {self._arg(t)}"
 
     def model_expect(self, c, m):
+        return ctx_out(self._model_expect(c, m), c.get("ctx"))
+
+    def _model_expect(self, c, m):
         kind, via = c["kind"], c["via"]
         if via == "fn":
             return m
@@ -537,7 +617,15 @@ class C07(Prop):
 
     # ---- oracle ---------------------------------------------------------------------------------
     def oracle(self, c, out):
+        msg = self._oracle(c, out)
+        if msg and c.get("ctx"):
+            text = wrap(c) if c["kind"] in ("str", "bytes") else text_of(c["text"])
+            msg = f"inside {ctx_src(text, c['ctx'])[:80]!r}: " + msg
+        return msg
+
+    def _oracle(self, c, out):
         kind, via = c["kind"], c["via"]
+        ctx = c.get("ctx")
         if kind in ("str", "bytes"):
             exp = ref_value(c)
             if "value" in c:
@@ -552,6 +640,7 @@ class C07(Prop):
                 want = "string:" + json.dumps(text_of(exp))
             else:
                 want = "bytes:" + bytes(exp).hex()
+            want = ctx_out(want, ctx)
             if out != want:
                 return (f"{kind} literal {wrap(c)!r} via {via}: spells {exp} "
                         f"({'code points' if kind == 'str' else 'octets'}), implementation gave {out}")
@@ -575,14 +664,14 @@ class C07(Prop):
             if via == "fn":
                 want = f"ok {n}" if ok else "raise ValueError"
             else:
-                want = f"{kind}:{n}" if ok else "err"
+                want = ctx_out(f"{kind}:{n}" if ok else "err", ctx)
             if out != want:
                 return f"{kind} literal {text!r} via {via}: spells {n} ({'in' if ok else 'out of'} range), expected {want}, implementation gave {out}"
             return None
         if kind == "float":
             if not FLOAT_RE.match(text):
                 return None
-            want = "double:" + celrun.dbl_bits(float(text))
+            want = ctx_out("double:" + celrun.dbl_bits(float(text)), ctx)
             if out != want:
                 return f"float literal {text[:60]!r} via {via}: float() gives {want}, implementation gave {out}"
             return None
